@@ -10,93 +10,9 @@
 (* text and emits the case for replay; the invariants are laws of the      *)
 (* meaning layer that hold for every member and every text.                *)
 (***************************************************************************)
-EXTENDS Fam
+EXTENDS Shapes01
 
-CONSTANTS Tier,        \* "quick" | "thorough"
-          Shard, NShards
-
-R1Body == Seq2(Str(<<a>>), Str(<<b>>))           \* can fail after consuming
-R2Body == Star(Str(<<a>>))                       \* always succeeds
-
-Leaves == { Str(<<a>>), Str(<<b>>), Str(<<a, b>>), Str(<<>>), StrI(<<a>>),
-            APlus, AStar, BorAB, FailE, Back(1), PyInt(7), Ref("R1"), Ref("R2") }
-
-SmallLeaves == { Str(<<a>>), Str(<<a, b>>), AStar, Ref("R1"), BorAB }
-
-UForms == {"opt", "star", "plus", "r22", "r12", "r2n", "expect", "not", "skip1", "seq1"}
-BForms == {"seq", "left", "right", "choice", "longest", "skip2", "sep", "sept"}
-
-MkU(f, x) ==
-    CASE f = "opt" -> Opt(x)  [] f = "star" -> Star(x)  [] f = "plus" -> Plus(x)
-      [] f = "r22" -> Rep(x, Nb(2), Nb(2))  [] f = "r12" -> Rep(x, Nb(1), Nb(2))
-      [] f = "r2n" -> Rep(x, Nb(2), NoB)    [] f = "expect" -> Expect(x)
-      [] f = "not" -> Not(x)  [] f = "skip1" -> Skip1(x)  [] f = "seq1" -> Seq1(x)
-
-MkB(f, x, y) ==
-    CASE f = "seq" -> Seq2(x, y)  [] f = "left" -> Left(x, y)  [] f = "right" -> Right(x, y)
-      [] f = "choice" -> Ch2(x, y)  [] f = "longest" -> Long2(x, y)  [] f = "skip2" -> Skip2(x, y)
-      [] f = "sep" -> SepPlain(x, y)  [] f = "sept" -> SepTrailer(x, y)
-
-(* A shape is a recipe <<k, f, g, l1, l2, l3>>; Build turns it into an expression. *)
-(* The family is enumerated by Init over the recipe components, so TLC never      *)
-(* materialises the (large) set of expressions.                                   *)
-Build(r) ==
-    LET k == r[1]  f == r[2]  g == r[3]  l1 == r[4]  l2 == r[5]  l3 == r[6] IN
-    CASE k = 0 -> l1
-      [] k = 1 -> MkU(f, l1)
-      [] k = 2 -> MkB(f, l1, l2)
-      [] k = 3 -> MkU(f, MkU(g, l1))
-      [] k = 4 -> MkU(f, MkB(g, l1, l2))
-      [] k = 5 -> MkB(f, MkU(g, l1), l2)
-      [] k = 6 -> MkB(f, l1, MkU(g, l2))
-      [] k = 7 -> MkB(f, MkB(g, l1, l2), l3)
-      [] k = 8 -> MkB(f, l1, MkB(g, l2, l3))
-
-Dflt == Str(<<a>>)
-
-Recipes(L, S) ==
-    (* L: leaves for depth-1 shapes, S: leaves inside depth-2 shapes *)
-         {<<0, "", "", l1, Dflt, Dflt>> : l1 \in L}
-    \cup {<<1, f, "", l1, Dflt, Dflt>> : f \in UForms, l1 \in L}
-    \cup {<<2, f, "", l1, l2, Dflt>> : f \in BForms, l1 \in L, l2 \in L}
-    \cup {<<3, f, g, l1, Dflt, Dflt>> : f \in UForms, g \in UForms, l1 \in S}
-    \cup {<<4, f, g, l1, l2, Dflt>> : f \in UForms, g \in BForms, l1 \in S, l2 \in S}
-    \cup {<<5, f, g, l1, l2, Dflt>> : f \in BForms, g \in UForms, l1 \in S, l2 \in S}
-    \cup {<<6, f, g, l1, l2, Dflt>> : f \in BForms, g \in UForms, l1 \in S, l2 \in S}
-
-Recipes3(S) ==
-         {<<7, f, g, l1, l2, l3>> : f \in BForms, g \in BForms, l1 \in S, l2 \in S, l3 \in S}
-    \cup {<<8, f, g, l1, l2, l3>> : f \in BForms, g \in BForms, l1 \in S, l2 \in S, l3 \in S}
-
-(* operands of the constructor-only forms must not be bare inline Python   *)
-(* (those forms read it as an option value, see C19)                        *)
-RECURSIVE Renderable(_)
-Renderable(x) ==
-    CASE x[1] \in {"expect", "not"} -> x[2][1] # "py" /\ Renderable(x[2])
-      [] x[1] \in {"skip", "longest"} -> \A i \in 1..Len(x[2]) : x[2][i][1] # "py" /\ Renderable(x[2][i])
-      [] x[1] = "sep" -> x[2][1] # "py" /\ x[3][1] # "py" /\ Renderable(x[2]) /\ Renderable(x[3])
-      [] x[1] \in {"seq", "choice"} -> \A i \in 1..Len(x[2]) : Renderable(x[2][i])
-      [] x[1] \in {"left", "right"} -> Renderable(x[2]) /\ Renderable(x[3])
-      [] x[1] \in {"opt", "list"} -> Renderable(x[2])
-      [] OTHER -> TRUE
-
-(* continuation contexts: what is tried next shows where it starts *)
-Ctx(c, x) ==
-    CASE c = 0 -> x
-      [] c = 1 -> Ch2(x, Rest)                                   \* next alternative
-      [] c = 2 -> Seq2(Opt(x), Rest)                             \* continuation after an option
-      [] c = 3 -> Seq2(Expect(x), Rest)                          \* after a lookahead
-      [] c = 4 -> Seq2(Not(x), Rest)                             \* after a negative lookahead
-      [] c = 5 -> Seq2(Skip1(x), Rest)                           \* after a skip loop
-      [] c = 6 -> Seq2(Star(Seq2(Str(<<b>>), x)), Rest)          \* repetition: a failed iteration
-
-CtxIds(r) == IF r[1] <= 2 \/ Tier # "quick" THEN 0..6 ELSE {0, 1}
-
-Grammar(e) == [rules |-> [start |-> Rule(e), R1 |-> Rule(R1Body), R2 |-> Rule(R2Body)],
-               ign |-> <<>>, start |-> "start"]
-
-Texts == TextSeqUpTo(<<a, b>>, IF Tier = "quick" THEN 4 ELSE 5)
-         \o << <<bigA>>, <<bigA, b>>, <<a, bigA>>, <<b, a, bigA, b>> >>
+CONSTANTS Shard, NShards
 
 VARIABLES sh, c, done
 vars == <<sh, c, done>>
